@@ -12,4 +12,5 @@ INVARIANT RoundRefines
 INVARIANT DivRefines
 INVARIANT QuantizeRefines
 INVARIANT RatioRefines
+INVARIANT UnaryRefines
 CHECK_DEADLOCK FALSE
